@@ -296,6 +296,243 @@ theorem pvd_select_some (entries : List (Nat × φ)) (h : entries ≠ []) :
     simp only [pvdSelect, List.map_cons, latest]
     cases latest (es.map (·.1)) <;> rfl
 
+/-! ## point data and the length scale -/
+
+/-- point_data_roundtrip: stacking the point data of the entities and chopping them again by
+    node counts returns every entity its values, node by node. -/
+theorem point_data_roundtrip (parts : List (List α)) :
+    importPointField (parts.map List.length) (exportPointField parts) = parts := chop_flatten parts
+
+theorem meshPoints_length (L : Rat) (grids : List (List Pt)) :
+    (meshPoints L grids).length = (grids.map List.length).sum := by
+  simp [meshPoints, List.length_flatten, List.map_map, Function.comp_def]
+
+/-- ... for subdomains (`sides` all 1) and mortar grids (points of the side grids, unrolled),
+    with one value per point of the file -/
+theorem point_data_roundtrip_dim (L : Rat) (gridPts : List (List Pt)) (sides : List Nat)
+    (parts : List (List α)) (hs : gridPts.length ≤ sides.sum)
+    (hp : parts.map List.length = entitySizes sides (gridPts.map List.length)) :
+    importPointField (entitySizes sides (gridPts.map List.length)) (exportPointField parts) = parts ∧
+    (exportPointField parts).length = (meshPoints L gridPts).length := by
+  constructor
+  · rw [← hp]; exact chop_flatten parts
+  · rw [meshPoints_length, exportPointField, List.length_flatten, hp,
+      sum_entitySizes _ _ (by simpa using hs)]
+
+/-- vector-valued point data handed over flat (node-major) come back flat -/
+theorem point_data_roundtrip_vector (nd : Nat) (sizes : List Nat) (flat : List (List α))
+    (hlen : sizes.length = flat.length) (hflat : ∀ p ∈ sizes.zip flat, p.2.length = nd * p.1) :
+    (importPointField sizes
+        (exportPointField ((sizes.zip flat).map (fun p => toColumns nd p.1 p.2)))).map List.flatten
+      = flat := by
+  have hsz : ((sizes.zip flat).map (fun p => toColumns nd p.1 p.2)).map List.length = sizes := by
+    rw [List.map_map]
+    have : (List.length ∘ fun p : Nat × List α => toColumns nd p.1 p.2) = (·.1) := by
+      funext p; simp [toColumns_length]
+    rw [this]
+    exact List.map_fst_zip (Nat.le_of_eq hlen)
+  have key := point_data_roundtrip ((sizes.zip flat).map (fun p => toColumns nd p.1 p.2))
+  rw [hsz] at key
+  rw [key, List.map_map]
+  have : ∀ p ∈ sizes.zip flat, (List.flatten ∘ fun p : Nat × List α => toColumns nd p.1 p.2) p = p.2 := by
+    intro p hp
+    exact toColumns_flatten nd p.1 p.2 (hflat p hp)
+  rw [List.map_congr_left this]
+  exact List.map_snd_zip (Nat.le_of_eq hlen.symm)
+
+theorem scalePt_one (p : Pt) : scalePt 1 p = p := by
+  simp [scalePt, Rat.mul_one]
+
+/-- length_scale_points: the exported coordinates are the grid coordinates times the length scale -/
+theorem length_scale_points (L : Rat) (grids : List (List Pt)) :
+    meshPoints L grids = (grids.flatten).map (scalePt L) := by
+  simp [meshPoints, List.map_flatten]
+
+theorem length_scale_one (grids : List (List Pt)) : meshPoints 1 grids = grids.flatten := by
+  rw [length_scale_points]
+  have : (scalePt 1 : Pt → Pt) = id := by funext p; exact scalePt_one p
+  rw [this, List.map_id]
+
+/-- length_scale_data_untouched: the length scale changes the points of the file and nothing
+    else: cell blocks and point values are those of the unscaled export. -/
+theorem length_scale_data_untouched (d : α) (L L' : Rat) (gridPts : List (List Pt))
+    (ids : List (List Nat)) (cellParts : List (List α)) (pointParts : List (List β)) :
+    (exportMesh d L gridPts ids cellParts pointParts).cellBlocks =
+      (exportMesh d L' gridPts ids cellParts pointParts).cellBlocks ∧
+    (exportMesh d L gridPts ids cellParts pointParts).pointValues =
+      (exportMesh d L' gridPts ids cellParts pointParts).pointValues := ⟨rfl, rfl⟩
+
+/-- an exporter with the same length scale accepts the file (the point check of the importer) -/
+theorem points_compatible_same_scale (d : α) (L : Rat) (gridPts : List (List Pt))
+    (ids : List (List Nat)) (cellParts : List (List α)) (pointParts : List (List β)) :
+    pointsCompatible L gridPts (exportMesh d L gridPts ids cellParts pointParts).pts = true := by
+  simp [pointsCompatible, exportMesh]
+
+/-! ## file names, automatic and manual resolution, time index from the suffix -/
+
+theorem isSd_aux (stem : List Piece) (app : Appendix) (hstem : ∀ p ∈ stem, p ≠ Piece.word 0) :
+    (!((app.pieces.reverse ++ stem.reverse).head? == some (Piece.word 0) ||
+        ((app.pieces.reverse ++ stem.reverse).head? == some (Piece.word 1) &&
+          (app.pieces.reverse ++ stem.reverse)[1]? == some (Piece.word 0)))) = !app.isMortar := by
+  have h0 : stem.reverse.head? ≠ some (Piece.word 0) := by
+    intro h
+    exact hstem _ (List.mem_reverse.mp (List.mem_of_mem_head? h)) rfl
+  have h1 : stem.reverse[1]? ≠ some (Piece.word 0) := by
+    intro h
+    exact hstem _ (List.mem_reverse.mp (List.mem_of_getElem? h)) rfl
+  have h0' : stem.reverse[0]? ≠ some (Piece.word 0) := by
+    intro h
+    exact hstem _ (List.mem_reverse.mp (List.mem_of_getElem? h)) rfl
+  cases app
+  · have h0'' : stem.getLast? ≠ some (Piece.word 0) := by simpa [List.head?_reverse] using h0
+    simp only [Appendix.pieces, List.reverse_nil, List.nil_append, Appendix.isMortar]
+    simp [h0'', h1]
+  · simp [Appendix.pieces, Appendix.isMortar]
+  · simp [Appendix.pieces, Appendix.isMortar, h0']
+  · simp [Appendix.pieces, Appendix.isMortar]
+
+/-- parse_makeName: for files named by the exporter with a time step, the automatic detection
+    finds the dimension and the kind (subdomain / interface), whatever the stem, provided the
+    stem does not contain the word "mortar". -/
+theorem parse_makeName (stem : List Piece) (app : Appendix) (dim s : Nat)
+    (hstem : ∀ p ∈ stem, p ≠ Piece.word 0) :
+    parseName (makeName stem app dim (some s)) = some (dim, !app.isMortar) := by
+  unfold parseName makeName
+  simp only [List.reverse_append, List.reverse_cons, List.reverse_nil, List.nil_append,
+    List.cons_append]
+  rw [isSd_aux stem app hstem]
+
+/-- ... and without a time step, if moreover the name does not end in a number before the
+    dimension (a stem like "run_3" is misread: explicit hypothesis) -/
+theorem parse_makeName_nostep (stem : List Piece) (app : Appendix) (dim : Nat)
+    (hstem : ∀ p ∈ stem, p ≠ Piece.word 0)
+    (hlast : ∀ n, (app.pieces.reverse ++ stem.reverse).head? ≠ some (Piece.num n)) :
+    parseName (makeName stem app dim none) = some (dim, !app.isMortar) := by
+  unfold parseName makeName
+  simp only [List.reverse_append, List.reverse_cons, List.reverse_nil, List.nil_append,
+    List.singleton_append, List.append_nil]
+  cases hb : app.pieces.reverse ++ stem.reverse with
+  | nil =>
+    have := isSd_aux stem app hstem
+    rw [hb] at this
+    simpa using this
+  | cons b rest =>
+    have hnum : ∀ n, b ≠ Piece.num n := by
+      intro n h; apply hlast n; rw [hb, h]; rfl
+    have := isSd_aux stem app hstem
+    rw [hb] at this
+    cases b with
+    | num n => exact absurd rfl (hnum n)
+    | word t => simpa using this
+
+/-- suffix_index: the time index read from the file suffix is the exported time step -/
+theorem suffix_index (stem : List Piece) (app : Appendix) (dim s : Nat) :
+    suffixIndex (makeName stem app dim (some s)) = some s := by
+  simp [suffixIndex, makeName]
+
+/-- zero padding of the suffix does not change the number (`int("000012") = 12`) -/
+theorem suffix_zero_padding (k n : Nat) :
+    ofBE (List.replicate k 0 ++ (digitsLE n).reverse) = n := by
+  rw [ofBE_zero_pad, ofBE_reverse, ofLE_digitsLE]
+
+/-- manual_resolution: with `automatic=False` the i-th file gets the i-th dimension and flag,
+    whatever its name; on names given by the exporter this agrees with automatic detection. -/
+theorem manual_resolution (dims : List Nat) (flags : List Bool) (i d : Nat) (f : Bool)
+    (hd : dims[i]? = some d) (hf : flags[i]? = some f) :
+    resolveManual (.inl dims) (some (.inl flags)) i = some (d, f) := by
+  simp [resolveManual, hd, hf]
+
+theorem manual_agrees_with_automatic (dims : List Nat) (flags : List Bool) (i : Nat)
+    (stem : List Piece) (app : Appendix) (dim s : Nat) (hstem : ∀ p ∈ stem, p ≠ Piece.word 0)
+    (hd : dims[i]? = some dim) (hf : flags[i]? = some (!app.isMortar)) :
+    resolveManual (.inl dims) (some (.inl flags)) i = parseName (makeName stem app dim (some s)) := by
+  rw [parse_makeName stem app dim s hstem]
+  simp [resolveManual, hd, hf]
+
+/-! ## the time step restored from a conventional pvd file: `"%f"` labels -/
+
+theorem filter_rendered (entries : List (Nat × Nat × φ)) (M : Nat) :
+    (rendered entries).filter (fun e => e.1 == renderF M) =
+      rendered (entries.filter (fun e => e.1 == M)) := by
+  unfold rendered
+  rw [List.filter_map]
+  congr 1
+  apply List.filter_congr
+  intro e _
+  by_cases h : e.1 = M
+  · simp [h]
+  · have h1 : renderF e.1 ≠ renderF M := fun hh => h (renderF_injective _ _ hh)
+    show (renderF e.1 == renderF M) = (e.1 == M)
+    rw [beq_eq_false_iff_ne.mpr h1, beq_eq_false_iff_ne.mpr h]
+
+/-- pvd_selects_latest_labels: `import_from_pvd` as coded now, on labels produced by "%f" from
+    non-negative finite times (N = round(t·10⁶)): the chosen files are exactly those whose time
+    is numerically maximal (string order plays no role), in listed order, and the returned time
+    index is the file suffix of the first of them. -/
+theorem pvd_selects_latest_labels (entries : List (Nat × Nat × φ)) (idx : Nat) (files : List φ)
+    (h : pvdSelectLabels (rendered entries) = some (idx, files)) :
+    ∃ M, (∃ e ∈ entries, e.1 = M) ∧ (∀ e ∈ entries, e.1 ≤ M) ∧
+      files = (entries.filter (fun e => e.1 == M)).map (·.2.2) ∧
+      (entries.filter (fun e => e.1 == M)).head?.map (·.2.1) = some idx := by
+  unfold pvdSelectLabels at h
+  cases ha : argmaxFirst valueF ((rendered entries).map (·.1)) with
+  | none => simp [ha] at h
+  | some lab =>
+    have hspec := argmaxFirst_spec valueF _ lab ha
+    have hmap : (rendered entries).map (·.1) = entries.map (fun e => renderF e.1) := by
+      simp [rendered, List.map_map, Function.comp_def]
+    rw [hmap] at hspec
+    rcases List.mem_map.mp hspec.1 with ⟨e0, he0, rfl⟩
+    refine ⟨e0.1, ⟨e0, he0, rfl⟩, ?_, ?_⟩
+    · intro e he
+      have := hspec.2 (renderF e.1) (List.mem_map_of_mem he)
+      simpa [valueF_renderF] using this
+    · simp only [ha, filter_rendered] at h
+      cases hf : entries.filter (fun e => e.1 == e0.1) with
+      | nil => simp [hf, rendered] at h
+      | cons a t =>
+        simp only [hf, rendered, List.map_cons, Option.some.injEq, Prod.mk.injEq] at h
+        obtain ⟨h1, h2⟩ := h
+        subst h1; subst h2
+        simp [List.map_map, Function.comp_def]
+
+/-- pvd_index_is_latest_step: if a later exported step never has a smaller time, the returned
+    index is the most recent exported time-step index. -/
+theorem pvd_index_is_latest_step (entries : List (Nat × Nat × φ)) (idx : Nat) (files : List φ)
+    (hmono : ∀ e ∈ entries, ∀ e' ∈ entries, e.1 ≤ e'.1 → e.2.1 ≤ e'.2.1)
+    (h : pvdSelectLabels (rendered entries) = some (idx, files)) :
+    ∀ e ∈ entries, e.2.1 ≤ idx := by
+  obtain ⟨M, _, hmax, _, hidx⟩ := pvd_selects_latest_labels entries idx files h
+  cases hf : entries.filter (fun e => e.1 == M) with
+  | nil => simp [hf] at hidx
+  | cons a t =>
+    simp only [hf, List.head?_cons, Option.map_some, Option.some.injEq] at hidx
+    have ha : a ∈ entries.filter (fun e => e.1 == M) := by rw [hf]; exact List.mem_cons_self
+    have ha' := List.mem_filter.mp ha
+    have haM : a.1 = M := by simpa using ha'.2
+    intro e he
+    rw [← hidx]
+    exact hmono e he a ha'.1 (by rw [haM]; exact hmax e he)
+
+theorem pvd_select_labels_some (entries : List (Nat × Nat × φ)) (h : entries ≠ []) :
+    (pvdSelectLabels (rendered entries)).isSome := by
+  unfold pvdSelectLabels
+  have hne : (rendered entries).map (·.1) ≠ [] := by
+    cases entries with
+    | nil => exact absurd rfl h
+    | cons e es => simp [rendered]
+  cases ha : argmaxFirst valueF ((rendered entries).map (·.1)) with
+  | none => have := argmaxFirst_isSome valueF _ hne; simp [ha] at this
+  | some lab =>
+    have hspec := argmaxFirst_spec valueF _ lab ha
+    rcases List.mem_map.mp hspec.1 with ⟨e, he, hl⟩
+    cases hf : (rendered entries).filter (fun e => e.1 == lab) with
+    | nil =>
+      have : e ∈ (rendered entries).filter (fun e => e.1 == lab) :=
+        List.mem_filter.mpr ⟨he, by simp [hl]⟩
+      rw [hf] at this; cases this
+    | cons a t => simp [hf]
+
 /-! ## non-vacuity and regression witnesses -/
 
 /-- regression case F5 (corpus/C38/f5.json): quadrilateral, triangle, quadrilateral -/
@@ -342,6 +579,28 @@ example : latestLex (List.range 11) = some 9 := by decide +kernel
 example : latest (List.range 11) = some 10 := by decide +kernel
 example : pvdSelect [(0, "a_000000.vtu"), (1, "a_000001.vtu"), (10, "a_000010.vtu"), (9, "a_000009.vtu")]
     = some (10, ["a_000010.vtu"]) := by decide +kernel
+
+/-- the labels "%f" of the times 9 and 10: as strings "10.000000" sorts first, as numbers last -/
+example : renderF 10000000 = [49, 48, 46, 48, 48, 48, 48, 48, 48] := by decide +kernel
+example : lexLt (renderF 10000000) (renderF 9000000) = true := by decide +kernel
+example : valueF (renderF 9000000) < valueF (renderF 10000000) := by decide +kernel
+/-- steps 9 and 10 with times 9.0 and 10.0: the files of step 10 and index 10 -/
+example : pvdSelectLabels (rendered [(9000000, 9, "a_1_000009.vtu"), (10000000, 10, "a_1_000010.vtu")])
+    = some (10, ["a_1_000010.vtu"]) := by decide +kernel
+/-- times 0, 0.5, 1.0 at steps 0, 1, 2 (two files per step): index 2, not int(1.0) -/
+example : pvdSelectLabels (rendered [(0, 0, "a"), (0, 0, "b"), (500000, 1, "c"), (500000, 1, "d"),
+    (1000000, 2, "e"), (1000000, 2, "f")]) = some (2, ["e", "f"]) := by decide +kernel
+/-- file names: "run_mortar_1_000003" is interface data of dimension 1, time index 3; a stem
+    ending in a number without time step is misread (hypothesis of `parse_makeName_nostep`) -/
+example : parseName (makeName [.word 7] .mortar 1 (some 3)) = some (1, false) := by decide +kernel
+example : suffixIndex (makeName [.word 7] .mortar 1 (some 3)) = some 3 := by decide +kernel
+example : parseName (makeName [.word 7, .num 3] .none 2 none) = some (3, true) := by decide +kernel
+/-- before the repair, the second file of an `automatic=False` call was resolved by its name -/
+example : resolveAsCodedBefore (.inl [2, 1]) (some (.inl [true, false])) 1 [.word 9] = none := by decide +kernel
+example : resolveManual (.inl [2, 1]) (some (.inl [true, false])) 1 = some (1, false) := by decide +kernel
+/-- point data of two entities and a length scale 1/2 -/
+example : importPointField [2, 1] (exportPointField [[(1 : Int), 2], [3]]) = [[1, 2], [3]] := by decide +kernel
+example : meshPoints (1 / 2) [[[1, 2, 0]], [[4, 0, 0]]] = [[1 / 2, 1, 0], [2, 0, 0]] := by decide +kernel
 
 /-- time information: two writes, then a restart at index 1 -/
 example : TM.load (fun (x : Int) => some x) ⟨0, 0, [], []⟩
